@@ -418,7 +418,9 @@ class RecordingExecutor(Executor):
 		return f
 
 	def shutdown(self, wait=True, *, cancel_futures=False):
-		self.shutdowns += 1      # the caller's executor must stay usable: ignore, the harness closes `inner`
+		# behave like the real pool: a call that shuts the caller's executor down makes it unusable
+		self.shutdowns += 1
+		self.inner.shutdown(wait=wait, cancel_futures=cancel_futures)
 
 
 # ------------------------------------------------------------------------------------------------
@@ -532,15 +534,18 @@ def _run_pool(case):
 		try:
 			# `concurrency` is overridden by the executor: pass the *other* value on purpose
 			obs = _observe(lambda: calc.calc_file_signatures(kspec, files, executor=rec, concurrency=None, max_workers=1))
+			order = list(rec.order)[:len(fids)] if len(rec.order) >= len(fids) else None
 			still_open = True
 			try:
 				inner.submit(int, 0).result(30)
 			except Exception:     # noqa
 				still_open = False
+			# the caller owns the executor: a second batch (reversed) through the same executor must behave
+			# exactly like the first
+			obs2 = _observe(lambda: calc.calc_file_signatures(kspec, files[::-1], executor=rec, concurrency=None, max_workers=1))
 		finally:
 			inner.shutdown(wait=True)
-		order = list(rec.order)[:len(fids)] if len(rec.order) >= len(fids) else None
-		return obs, order, still_open
+		return obs, order, (still_open, obs2)
 	obs = _observe(lambda: calc.calc_file_signatures(kspec, files, concurrency=conc, max_workers=workers))
 	return obs, None, None
 
@@ -577,8 +582,16 @@ def k_pool(ctx, cases):
 		if reordered:
 			ctx.count('pool:observed-out-of-order-completions')
 		ctx.count(f'pool:{case["conc"]}' + ('-supplied' if case.get('supplied') else ''))
-		if still_open is False:
-			ctx.count('pool:caller-executor-was-shut-down')
+		if still_open is not None:
+			still_open, obs2 = still_open
+			if not still_open:
+				ctx.count('pool:caller-executor-was-shut-down')
+			bad2 = _predicate(fids[::-1], obs2)
+			if bad2 is not None:
+				ctx.violation('pool', case, f'second call through the same caller-supplied executor (files reversed): {bad2}'
+				              + ('' if still_open else ' -- the first call shut the caller\'s executor down'),
+				              impl=obs2, spec=[_single(f) for f in fids[::-1]], files=_describe(fids))
+				continue
 		nontriv = n >= 2 and _distinct(fids) and (reordered or nbad > 0 or skew)
 		refuse = case['conc'] not in (None, 'threads', 'processes') and not case.get('supplied')
 		_judge(ctx, 'pool', case, fids, obs, ans[j] if ans else None, exact=nbad <= 1, nontrivial=nontriv, may_refuse=refuse)
